@@ -7,7 +7,7 @@ from wsx import Wsx, ExecutorDied
 
 KINDS = ["lib_client", "model_correct", "replay_accepted", "replay_rejected", "stale_challenge", "wrong_key_bit",
          "wrong_username", "proof_bitflip", "client_data_bitflip", "all_zero", "proof_cancelling_change",
-         "client_data_is_server_challenge"]
+         "client_data_is_server_challenge", "client_data_of_last_rejected_right_proof", "client_data_of_last_accepted_right_proof"]
 RULE = ("per authenticated SrpServer a random history of reconnect attempts over the kinds %s; every attempt is judged: "
         "verdict == (proof == H(U | client_data | challenge-on-offer | K)) with the challenge read through the accessor, and "
         "the challenge after the attempt differs from every earlier challenge of that object. Distinct non-trivial cases = "
@@ -69,6 +69,10 @@ def run_history(w, sc, mon, pair_seen):
             kind = "all_zero"
         if kind == "stale_challenge" and len(seen) < 2:
             kind = "proof_bitflip"
+        if kind == "client_data_of_last_rejected_right_proof" and not rejected:
+            kind = "proof_bitflip"
+        if kind == "client_data_of_last_accepted_right_proof" and not accepted:
+            kind = "model_correct"
         kinds_done.append(kind)
         cur = seen[-1]
         data = bytes(rnd.getrandbits(8) for _ in range(16))
@@ -114,6 +118,11 @@ def run_history(w, sc, mon, pair_seen):
                 x[i] ^= bit
                 x[j] ^= bit
                 proof = bytes(x)
+        elif kind in ("client_data_of_last_rejected_right_proof", "client_data_of_last_accepted_right_proof"):
+            # a client that keeps its own challenge bytes (a fixed or per-connection nonce): the same client data as in the most
+            # recent refused / accepted attempt, with the proof that is right for the challenge now on offer
+            data = (rejected if "rejected" in kind else accepted)[-1][0]
+            proof = M.reconnect_proof(un, data, cur, K)
         elif kind == "client_data_is_server_challenge":
             # aliased inputs: the client echoes the challenge on offer (with a wrong or, sometimes, the right proof)
             data = cur
